@@ -759,6 +759,7 @@ func verifRoundTripGUID(d1 uint32, d2, d3 uint16, d4 []byte, k int) {
 //@   split mask & 15 == 2
 //@   split mask & 15 == 3
 //@   split mask & 15 == 5
+//@   split mask & 15 == 4 || mask & 15 > 5
 func verifRoundTripNodeID(mask NodeIDType, ns uint16, nid uint32, bid []byte, k int) {
 	v := &NodeID{mask: mask, ns: ns, nid: nid, bid: bid}
 	switch v.Type() {
@@ -896,4 +897,66 @@ func verifRoundTripDataValue(mask byte, status StatusCode, st, vt time.Time, sp,
 		verifAssert("C01:datavalue-server-picoseconds", w.ServerPicoseconds == vp)
 	}
 	verifCanary("C01:canary-datavalue-always-one-byte", n == 1)
+}
+
+// C03 for DataValue (any mask byte without the Value bit, flag bits above 0x3f included): what Decode
+// accepted, Encode writes with the same length, and decoding that again consumes all of it and gives the
+// same mask, status (when no later field follows) and picoseconds.
+//@ func verifReencodeDataValue
+//@   props C03
+//@   bytes
+//@   use (*DataValue).Decode@inline
+//@   requires want & 1 == 0 && want < 64
+//@   split want == 0
+//@   split want == 2
+//@   split want == 4
+//@   split want == 6
+//@   split want == 8
+//@   split want == 10
+//@   split want == 12
+//@   split want == 14
+//@   split want == 16
+//@   split want == 18
+//@   split want == 20
+//@   split want == 22
+//@   split want == 24
+//@   split want == 26
+//@   split want == 28
+//@   split want == 30
+//@   split want == 32
+//@   split want == 34
+//@   split want == 36
+//@   split want == 38
+//@   split want == 40
+//@   split want == 42
+//@   split want == 44
+//@   split want == 46
+//@   split want == 48
+//@   split want == 50
+//@   split want == 52
+//@   split want == 54
+//@   split want == 56
+//@   split want == 58
+//@   split want == 60
+//@   split want == 62
+func verifReencodeDataValue(b []byte, want byte) {
+	v := new(DataValue)
+	n, err := v.Decode(b)
+	if err != nil || v.EncodingMask&0x3f != want {
+		return
+	}
+	e, eerr := v.Encode()
+	verifAssert("C03:datavalue-encodes", eerr == nil && len(e) == n)
+	w := new(DataValue)
+	m, derr := w.Decode(e)
+	verifAssert("C03:datavalue-redecodes", derr == nil && m == len(e))
+	if want&DataValueStatusCode != 0 && want&0x3c == 0 {
+		verifAssert("C03:datavalue-status", w.Status == v.Status)
+	}
+	if want&DataValueSourcePicoseconds != 0 {
+		verifAssert("C03:datavalue-source-picoseconds", w.SourcePicoseconds == v.SourcePicoseconds)
+	}
+	if want&DataValueServerPicoseconds != 0 {
+		verifAssert("C03:datavalue-server-picoseconds", w.ServerPicoseconds == v.ServerPicoseconds)
+	}
 }
